@@ -161,3 +161,42 @@ Proof.
     rewrite xor_bytes_invol in Hz by (rewrite L1, L2; reflexivity).
     rewrite xor_zeros_l in Hz by exact L2. exact Hz.
 Qed.
+
+(* ---------- histories of calls: every result is the specification's value on the values at call time ------------ *)
+Definition call_ok (c : gcm_call) : Prop :=
+  length (c_key c) = 16 /\ bytes_ok (c_iv c) = true /\ bytes_ok (c_in c) = true /\ bytes_ok (c_a c) = true.
+
+Definition gcm_spec_result (E : list N -> list N -> list N) (c : gcm_call) : gcm_result :=
+  let CIPH := E (c_key c) in
+  match c_fn c with
+  | FnSm4GCM true | FnGCMEncrypt => let '(x, t) := gcm_ae CIPH (c_iv c) (c_in c) (c_a c) in RPair x t
+  | FnSm4GCM false | FnGCMDecrypt =>
+    RPair (gctr CIPH (inc32 (J0 CIPH (c_iv c))) (c_in c)) (gcm_tag CIPH (c_iv c) (c_a c) (c_in c))
+  | FnGetH => RBlock (hash_key CIPH)
+  end.
+
+Section History.
+  Variable E : list N -> list N -> list N.
+  Hypothesis E_len : forall k b, length (E k b) = 16.
+  Hypothesis E_ok : forall k b, bytes_ok (E k b) = true.
+
+  Lemma gcm_do_spec st c : call_ok c -> gcm_do E st c = Ok (st, gcm_spec_result E c).
+  Proof.
+    intros (HK & HIV & HX & HA). unfold gcm_do, gcm_spec_result.
+    destruct (c_fn c) as [[|]| | |].
+    - destruct (Sm4GCM_spec E (c_key c) (c_iv c) (c_in c) (c_a c) true) as [_ ->]; [|exact HK].
+      rewrite (GCMEncrypt_spec E E_len E_ok _ _ _ _ HK HIV HX HA). unfold gcm_ae. reflexivity.
+    - destruct (Sm4GCM_spec E (c_key c) (c_iv c) (c_in c) (c_a c) false) as [_ ->]; [|exact HK].
+      rewrite (GCMDecrypt_spec E E_len E_ok _ _ _ _ HK HIV HX HA). reflexivity.
+    - rewrite (GCMEncrypt_spec E E_len E_ok _ _ _ _ HK HIV HX HA). unfold gcm_ae. reflexivity.
+    - rewrite (GCMDecrypt_spec E E_len E_ok _ _ _ _ HK HIV HX HA). reflexivity.
+    - destruct (GetH_spec E E_len E_ok (c_key c) HK) as [-> _]. reflexivity.
+  Qed.
+
+  Lemma gcm_run_spec calls : Forall call_ok calls -> forall st,
+    gcm_run E st calls = Ok (map (gcm_spec_result E) calls).
+  Proof.
+    induction 1 as [|c calls Hc HF IH]; intros st; [reflexivity|].
+    cbn [gcm_run map]. rewrite (gcm_do_spec st c Hc). cbn [obind]. rewrite IH. reflexivity.
+  Qed.
+End History.
